@@ -433,6 +433,18 @@ class FuncModel:
         ev: list[FieldEvent] = []
         f = self.f
         for n in own_walk(f.node):
+            if isinstance(n, ast.Subscript) and isinstance(n.ctx, (ast.Store, ast.Del)) and not isinstance(n.slice, ast.Constant):
+                # store under a key computed at run time: H[k] = v
+                try:
+                    cn = self.cfgn(n)
+                except AnalysisError:
+                    continue
+                h = self.handle(n.value, cn)
+                if h is not None:
+                    stmt = f.stmt_of(n)
+                    val = stmt.value if isinstance(stmt, (ast.Assign, ast.AnnAssign, ast.AugAssign)) else None
+                    ev.append(FieldEvent(f, "store", h[0], h[1], "*", val, n, stmt, cn, self.hkey(n.value, cn)))
+                continue
             if isinstance(n, ast.Subscript) and isinstance(n.slice, ast.Constant) and isinstance(n.slice.value, str):
                 if n is f.node:
                     continue
@@ -468,6 +480,45 @@ class FuncModel:
                                               self.vkey(n.args[0], cn) if n.args else ("?", ()))))
         self._events = ev
         return ev
+
+    def dynamic_fields(self, e: FieldEvent, all_fields: list[str]) -> set[str] | None:
+        """Fields a run-time-keyed store `H[k] = v` can touch: k iterates over the handle's own keys
+        (or a constant tuple), filtered by `k in/not in <constant tuple>` tests.  None = unknown."""
+        k = e.node.slice
+        if not isinstance(k, ast.Name):
+            return None
+        defs = self.cfg.reaching_defs(k.id, e.cfgn)
+        if len(defs) != 1 or defs[0].kind != "for":
+            return None
+        it = defs[0].ast.iter
+        fields: set[str] | None = None
+        if isinstance(it, (ast.Tuple, ast.List)) and all(isinstance(x, ast.Constant) for x in it.elts):
+            fields = {x.value for x in it.elts}
+        else:
+            base = it
+            if isinstance(base, ast.Call) and self._callee_name(base) in ("list", "sorted", "tuple", "keys") :
+                base = base.args[0] if base.args else (base.func.value if isinstance(base.func, ast.Attribute) else base)
+            if self.handle(base, defs[0]) is not None or (isinstance(base, ast.Attribute) and False):
+                fields = set(all_fields)
+        if fields is None:
+            return None
+        for test, pol, b in self.facts(e.cfgn):
+            t, p = test, pol
+            while isinstance(t, ast.UnaryOp) and isinstance(t.op, ast.Not):
+                t, p = t.operand, not p
+            if isinstance(t, ast.Compare) and len(t.ops) == 1 and isinstance(t.left, ast.Name) and t.left.id == k.id \
+                    and isinstance(t.ops[0], (ast.In, ast.NotIn)):
+                c = t.comparators[0]
+                if isinstance(c, ast.Name):
+                    sd = self.single_def(c.id, e.cfgn)
+                    c = sd[1] if sd else c
+                if isinstance(c, (ast.Tuple, ast.List, ast.Set)) and all(isinstance(x, ast.Constant) for x in c.elts):
+                    consts = {x.value for x in c.elts}
+                    inside = isinstance(t.ops[0], ast.In) == p
+                    fields = (fields & consts) if inside else (fields - consts)
+                else:
+                    return None
+        return fields
 
     def growth_events(self) -> list[GrowthEvent]:
         if self._growth is not None:
